@@ -143,7 +143,13 @@ func (fr *frame) slice(x *ssa.Slice) Val {
 		at := tt.Elem().Underlying().(*types.Array)
 		p := fr.asPtr(v, x.X.Type())
 		if p.kind != pArray || len(p.path) != 0 {
-			panic(unsupportedf("slicing an array that is not a separate object"))
+			// an array embedded in a struct / local cell: the slice is modelled as a copy of it
+			// (reads are exact; writes through the slice are not reflected back)
+			u.note("%s: slice of an embedded array modelled as a copy (writes through it are not reflected back)", fr.fn.Name())
+			r := fr.freshRef()
+			k := u.keyM(at.Elem())
+			fr.st.setAt(k, fmt.Sprintf("(store %s %s %s)", fr.st.get(u, k), r, u.loadPtr(p, fr.st)), r)
+			p = &Ptr{kind: pArray, ref: r, typ: at.Elem(), n: at.Len()}
 		}
 		n := m.idxLit(at.Len())
 		lo := opt(x.Low, m.idxLit(0))
